@@ -175,3 +175,5 @@ def run(res, facts, tier):
     _run_c08_prev_surrogate(res, facts, tier)
     from . import c08_surrogate
     c08_surrogate.run_rule(res, facts, tier)
+    from . import c08_url
+    c08_url.run_rule(res, facts, tier)
